@@ -79,6 +79,12 @@ func schedule(c *rt.Ctx) []Case {
 			Case{Dialect: d, Src: "realm", Cur: midFlags, Des: richFlags, OCurAbsent: true, ODes: midFlags},
 			Case{Dialect: d, Src: "realm", Cur: midFlags, Des: midFlags, OCur: midFlags, ODesAbsent: true}, // DropSchema
 		)
+		// the same over pairs of schemas whose names a sloppy comparison takes for one
+		for _, pn := range pairNames() {
+			cases = append(cases,
+				Case{Dialect: d, Src: "realm", Pair: pn, Cur: midFlags, Des: richFlags, OCur: []string{"idx"}, ODes: []string{"col"}},
+				Case{Dialect: d, Src: "realm", Pair: pn, Cur: []string{"idx"}, Des: []string{"col"}, OCur: midFlags, ODes: richFlags})
+		}
 		r = c.Rand(16, uint64(di), 2)
 		for i := 0; i < c.Pick(20, 300); i++ {
 			cs := Case{Dialect: d, Src: "realm", Cur: randFlags(d, r, 0.4), OCur: randFlags(d, r, 0.4)}
@@ -136,6 +142,10 @@ func schedule(c *rt.Ctx) []Case {
 	// every scenario is also planned with one hostile custom qualifier (rotating over the classes)
 	for i := range cases {
 		cases[i].Hostile = hostile[i%len(hostile)]
+	}
+	// ---- planner reuse: sequences of calls on one migrate.Planner (reuse.go)
+	for di, d := range []string{"mysql", "postgres"} {
+		cases = append(cases, reuseCases(c, di, d)...)
 	}
 	return cases
 }
